@@ -3,11 +3,14 @@
        satisfies every restriction choice it was built from (merge_with keeps exactly the variants
        compatible with all overlapping choices; extract_varying_region is exact); the space is
        well-formed; "unsolvable" (a choice without variant) iff no sequence satisfies them all;
-   (b) per class, restrict_nucleotides() is the class's documented predicate: tied to the code by the
-       correspondence on generated constraint sets and decided by brute force over all 4^L sequences
-       (membership vs evaluate().passes), not by a Coq theorem;
+   (b) per class, the restriction choices of an enforcing specification hold on a sequence iff the
+       specification's own evaluation passes on it: theorems below for AvoidChanges (no edit
+       allowance), EnforceChanges (100 %), EnforceSequence, EnforceChoice, AvoidRareCodons (and, in
+       Properties/C07.v, EnforceTranslation); also tied to the code by the correspondence on generated
+       constraint sets and decided by brute force over all 4^L sequences;
    (c) the initial sequence ends in the space (constrain_sequence, C15). *)
 From Coq Require Import ZArith Bool List Lia Sorting.Sorted Permutation.
+From DC Require Import Model.Specs Proofs.SpecsDefs Proofs.RestrictMeaning.
 From DC Require Import Model.Base Model.Loc Model.MSpace Proofs.MSpaceDefs Proofs.MSpaceA Proofs.MSpaceD.
 Import ListNotations.
 Open Scope Z_scope.
@@ -62,3 +65,34 @@ Example C04_ex :
                                                           mkChoice 2 4 [[nG; nT]; [nA; nA]] false]))
   = [(0, 2, [[nA; nC]]); (2, 4, [[nG; nT]; [nA; nA]])].
 Proof. vm_compute. reflexivity. Qed.
+
+
+(* ---- (b): what the restrictions of each enforcing class mean ----
+   [c04_init sp s]: what the constructors and initialized_on_problem establish on the problem's
+   sequence s (stored sequence read from s; indices inside the location; for AvoidRareCodons one
+   table entry per codon).  *)
+Theorem C04_restrictions_hold_iff_the_specification_passes : forall sp s t,
+  c04_class sp -> c04_init sp s -> zlen t = zlen s ->
+  (Forall (fun r => holds r t) (restrict_nucleotides sp false s) <->
+   exists e, Specs.evaluate sp t = Some e /\ passes e = true).
+Proof. exact enforced_restrictions_mean_pass. Qed.
+Print Assumptions C04_restrictions_hold_iff_the_specification_passes.
+
+(* with (a): membership in the space built from ONE such specification = the specification passes *)
+Theorem C04_enforce_sequence_exact : forall w l s t,
+  loc_in l (zlen s) -> zlen t = zlen s ->
+  (Forall (fun r => holds r t) (restrict_nucleotides (SEnforceSequence w l) false s) <->
+   exists e, Specs.evaluate (SEnforceSequence w l) t = Some e /\ passes e = true).
+Proof. exact enforce_sequence_restrictions_exact. Qed.
+Print Assumptions C04_enforce_sequence_exact.
+
+(* the coverage hypothesis is necessary: a specification given BOTH a location and indices outside
+   it (not the documented use: "alternatively, indices can be provided") restricts nothing while its
+   evaluation fails *)
+Theorem C04_indices_outside_the_location_refuted :
+  exists l idx tg s t,
+    wf_spec (SAvoidChanges l idx tg 0) (zlen s) /\ changes_init l idx tg s /\ zlen t = zlen s /\
+    ~ (Forall (fun r => holds r t) (restrict_nucleotides (SAvoidChanges l idx tg 0) false s) <->
+       exists e, Specs.evaluate (SAvoidChanges l idx tg 0) t = Some e /\ passes e = true).
+Proof. exact avoid_changes_restrictions_refuted. Qed.
+Print Assumptions C04_indices_outside_the_location_refuted.
